@@ -376,7 +376,7 @@ static void do_init(void)
     Spec.Dict = Dict;
     Spec.DictLen = (uint16_t)(DictMax >= 0 ? DictMax : NOd + 1);
     Spec.EmcyCode = EmcyNull ? NULL : EmcyTbl;
-    if (TmrMem == NULL) TmrMem = xalloc(sizeof(CO_TMR_MEM) * (Spec.TmrNum ? Spec.TmrNum : 1));
+    if (TmrMem == NULL) TmrMem = xalloc(sizeof(CO_TMR_MEM) * Spec.TmrNum);       /* exactly the configured pool, also when that is no block at all */
     Spec.TmrMem = TmrMem;
     if (SdoBuf == NULL) SdoBuf = xalloc(CO_SDO_BUF_BYTE * CO_SSDO_N);
     memset(SdoBuf, 0, CO_SDO_BUF_BYTE * CO_SSDO_N);
